@@ -260,11 +260,16 @@ class Gen:
 
 # ---------------------------------------------------------------------------------------- serialise
 
-def ser(n, tns_prefix='p', default_ns=False, _root=True, _indef=None, pretty=False):
+def ser(n, tns_prefix='p', default_ns=False, _root=True, _indef=None, pretty=False, switch_paths=None, _path=()):
     """Serialise an instance tree.  default_ns: bind the target namespace as default namespace on
-    the root (unqualified locals then undeclare it)."""
+    the root (unqualified locals then undeclare it).  switch_paths: paths of qualified non-root nodes that declare
+    a NEW prefix for the target namespace (used by the node and its descendants) and REBIND the root's prefix to
+    another namespace - inner namespace scopes that differ from the root's."""
     ns = n['ns']
     decl = ''
+    if switch_paths and not _root and ns and not default_ns and _path in switch_paths and tns_prefix == 'p':
+        tns_prefix = 'q'
+        decl = ' xmlns:q="%s" xmlns:p="urn:rebound"' % ns
     if _root:
         if ns and default_ns:
             decl = ' xmlns="%s"' % ns
@@ -285,7 +290,8 @@ def ser(n, tns_prefix='p', default_ns=False, _root=True, _indef=None, pretty=Fal
             _indef = ''
     at = ''.join(' %s="%s"' % (k, v) for k, v in n['attrs'].items())
     inner = (n['text'] or '') + ''.join(
-        ser(k, tns_prefix, default_ns, False, _indef) + (k.get('tail') or '') for k in n['kids'])
+        ser(k, tns_prefix, default_ns, False, _indef, switch_paths=switch_paths, _path=_path + (i,)) + (k.get('tail') or '')
+        for i, k in enumerate(n['kids']))
     return '<%s%s%s>%s</%s>' % (tag, decl, at, inner, tag)
 
 
